@@ -1,17 +1,79 @@
 /-
   Soundness of the dynamic taint analysis (`Model/Taint.lean`): non-interference of the accepted runs with the
   registers, stack bytes and post-call argument registers it tags `dirty`.
+  Parts: `TaintBase.lean` (low-equivalence, memory), `TaintStep.lean` (instruction by instruction), `TaintRun.lean`
+  (steps, runs); here the statement the property file uses.
 -/
 import RbpfModel.Model.Taint
 import RbpfModel.Props.C03x86
+import RbpfModel.Lemmas.TaintRun
 namespace Rbpf
 open Rbpf.JitSim
+open Taint (Tag TState)
+
+theorem taint_apart_of_disj (r s : Region)
+    (h : ∀ a w, 0 < w → s.contains a w = true → r.contains a w = false) : taint_Apart r s := by
+  unfold taint_Apart
+  by_cases h1 : r.base + r.bytes.size ≤ s.base
+  · exact .inl h1
+  by_cases h2 : s.base + s.bytes.size ≤ r.base
+  · exact .inr (.inl h2)
+  by_cases h3 : r.bytes.size = 0
+  · exact .inr (.inr (.inl h3))
+  by_cases h4 : s.bytes.size = 0
+  · exact .inr (.inr (.inr h4))
+  exfalso
+  rcases Nat.le_total r.base s.base with hle | hle
+  · have hc := h s.base 1 (by omega)
+      (by simp only [Region.contains, Bool.and_eq_true, decide_eq_true_eq]; omega)
+    simp only [Region.contains, Bool.and_eq_false_iff, decide_eq_false_iff_not] at hc
+    omega
+  · have hc := h r.base 1 (by omega)
+      (by simp only [Region.contains, Bool.and_eq_true, decide_eq_true_eq]; omega)
+    simp only [Region.contains, Bool.and_eq_false_iff, decide_eq_false_iff_not] at hc
+    omega
+
+/-- initially only r1 and r10 carry a tag other than `dirty` -/
+theorem taint_init_low (m : Memory) (r : Nat) (h : (Taint.init m).rt.getD r .dirty ≠ .dirty) : r = 1 ∨ r = 10 := by
+  have hrt : (Taint.init m).rt = ((Array.replicate 11 Tag.dirty).setIfInBounds 1 .pkt).setIfInBounds 10 .stk := rfl
+  rw [hrt, taint_getD_set, taint_getD_set] at h
+  by_cases h10 : r = 10
+  · exact .inr h10
+  by_cases h1 : r = 1
+  · exact .inl h1
+  rw [if_neg (by omega), if_neg (by omega)] at h
+  exfalso
+  apply h
+  rw [Array.getD_eq_getD_getElem?, Array.getElem?_replicate]
+  split <;> rfl
 
 theorem taint_clobIndep (env : Env) (m : Memory) (fuel : Nat) (ptrSlots patched : List Nat) (t : Taint.TState)
     (r0 : BitVec 64) (sfin : State)
     (hl : NoLocalCall env.prog) (h7 : NoF7 env.prog)
+    (hdisj : ∀ a w, 0 < w → m.stack.contains a w = true → m.mbuff.contains a w = false ∧ m.mem.contains a w = false)
     (hrun : Taint.run env ptrSlots patched fuel (Taint.init m) = (t, .done r0 sfin)) (hin : t.inClaim = true) :
     ClobIndep env m fuel := by
-  sorry
+  intro clob s hpc hfr hmem hlog h1 h10 r0' afin hjit
+  have hap : StackApart m :=
+    ⟨taint_apart_of_disj _ _ fun a w hw hs => (hdisj a w hw hs).1,
+     taint_apart_of_disj _ _ fun a w hw hs => (hdisj a w hw hs).2⟩
+  have hA : taint_LowEq (Taint.init m).rt (Taint.init m).st (Taint.init m).s (Interp.init m) :=
+    ⟨rfl, rfl, rfl, rfl, fun _ _ => rfl, taint_memEq_refl _ _ hap⟩
+  have hB : taint_LowEq (Taint.init m).rt (Taint.init m).st (Taint.init m).s s := by
+    refine ⟨hpc, rfl, hfr, hlog, ?_, ?_⟩
+    · intro r hr
+      rcases taint_init_low m r hr with rfl | rfl
+      · exact h1
+      · exact h10
+    · show taint_MemEq _ m s.mem
+      rw [hmem]; exact taint_memEq_refl _ _ hap
+  obtain ⟨ua, hua, hfa⟩ := taint_run_sim none env ptrSlots patched hl h7 fuel _ _ t r0 sfin hrun hin rfl hA
+  obtain ⟨ub, hub, hfb⟩ := taint_run_sim (some clob) env ptrSlots patched hl h7 fuel _ _ t r0 sfin hrun hin rfl hB
+  rw [taint_runB_none] at hua
+  rw [taint_runB_some] at hub
+  rw [hua] at hjit
+  cases hjit
+  exact ⟨ub, hub, ⟨hfb.2.1.trans hfa.2.1.symm, hfb.2.2.1.trans hfa.2.2.1.symm, hfb.2.2.2.trans hfa.2.2.2.symm⟩,
+    hfb.1.trans hfa.1.symm⟩
 
 end Rbpf
